@@ -9,7 +9,7 @@ reads, under W, as exactly v (so a full-schema reader recovers the original), wi
 retained by the top-level struct are byte-for-byte the encodings of its unknown fields; and the known fields
 decode exactly as in the plain build (retention never changes how known fields decode)."""
 import re
-from .. import gengen, genref, genrun, genevo
+from .. import gengen, genref, genrun, genevo, gencorr
 from ..gencheck import have_property_file, run_check
 
 PROP = 'C13'
@@ -200,10 +200,17 @@ def extra(cases, outs):
 
 
 def run(chk, replay=None):
-    return run_check(chk, replay, PROP, gen_cases, evaluate,
+    def post3(gb, cases, outs):
+        # three-way (Coq viewk / reenc = Python oracle = emitted code); cases on which the SPECIFICATIONS disagree are a broken
+        # check, reported as such, and exempt from the code oracle
+        broken = gencorr.three_way_keep(chk, gb, cases, outs, writer_schema)
+        bad = [(c, why, cls, o) for c, o in zip(cases, outs) if c['line'] not in broken for why, cls in (evaluate(gb, c, o) or [])]
+        return bad + post(gb, cases, outs)
+    return run_check(chk, replay, PROP, gen_cases, lambda gb, c, o: [],
                      rule="every struct / union of the corpus compiled with keep_unknown_fields (top-level; nested; inside list / map "
                           "containers: evo.EvoHolder, svc.Holder, uni.HasUn, rec.*; as method argument: svc.Req, inc.Pt and the synthesised "
                           "Args/Result types that contain them) as READER x writer schemas = reader + 1-3 added fields of every wire type "
                           "at any position / added union variants, in any reachable type x values under the writer schema x {checked "
                           "binary, unchecked binary}; plus the plain build on the same bytes; distinct by SHA-1 of the case line",
-                     extra_dist=extra, post=post)
+                     extra_dist=extra,
+                     post=post3)
